@@ -58,13 +58,32 @@ theorem nodeSiblings_sole_root (nl : NodeList) (id : String) (r : NodeList)
 
 /-! ### descendants: within the requested depth (the start node is level one) -/
 
-/-- PARTIAL (soundness half): every returned node is reached within fewer than `depth` hops,
-    where another root may be reached but is never traversed through. The converse (every such
-    node is returned) and hence monotonicity in the depth are not yet proved in Lean; they are
-    decided by the exhaustive/random correspondence and the Go-side reachability oracle. -/
-theorem nodeDescendants_nodes_partial (nl : NodeList) (id : String) (depth : Int) (z : String)
-    (hz : z ∈ (nl.nodeDescendants id depth).ids) : ∃ k, k < depth.toNat ∧ ReachIn nl id k z :=
-  nodeDescendants_sound nl id depth z hz
+/-- exactly the nodes reached within fewer than `depth` hops, where another root element may be
+    reached but is never traversed through (`ReachIn` leaves a node only if it is the start node
+    or not a root) -/
+theorem nodeDescendants_nodes (nl : NodeList) (id : String) (depth : Int) (hin : id ∈ nl.ids) (z : String) :
+    z ∈ (nl.nodeDescendants id depth).ids ↔ ∃ k, k < depth.toNat ∧ ReachIn nl id k z :=
+  nodeDescendants_ids nl id depth hin z
+
+/-- monotone in the depth -/
+theorem nodeDescendants_monotone (nl : NodeList) (id : String) (d1 d2 : Int) (h : d1 ≤ d2) (z : String)
+    (hz : z ∈ (nl.nodeDescendants id d1).ids) : z ∈ (nl.nodeDescendants id d2).ids := by
+  by_cases hin : id ∈ nl.ids
+  · obtain ⟨k, hk, hr⟩ := (nodeDescendants_ids nl id d1 hin z).mp hz
+    exact (nodeDescendants_ids nl id d2 hin z).mpr ⟨k, by omega, hr⟩
+  · unfold NodeList.nodeDescendants at hz
+    rw [if_neg hin] at hz
+    simp [NodeList.ids] at hz
+
+/-- with depth one the result is the start node alone -/
+theorem nodeDescendants_depth_one (nl : NodeList) (id : String) (hin : id ∈ nl.ids) (z : String) :
+    z ∈ (nl.nodeDescendants id 1).ids ↔ z = id := by
+  rw [nodeDescendants_ids nl id 1 hin z]
+  constructor
+  · rintro ⟨k, hk, hr⟩
+    have : k = 0 := by simp at hk; omega
+    subst this; exact reachIn_zero hr
+  · rintro rfl; exact ⟨0, by simp, ReachIn.zero⟩
 
 theorem nodeDescendants_edgeset (nl : NodeList) (id : String) (depth : Int) (s : String) (t : Int) (d : String) :
     (nl.nodeDescendants id depth).HasEdge s t d ↔
